@@ -30,6 +30,8 @@ if op in ("append", "extend"):
         e.append(src[1])
     else:
         e.extend([src[1], src[2]])
+        bad += rect(e)
+        e.extend(src)          # extend with an ensemble argument
     bad += rect(e)
     try:
         for c in e:
@@ -45,6 +47,12 @@ elif op == "nested-iteration":
     got = [next(i1)._conf_id, next(i2)._conf_id, next(i1)._conf_id, next(i2)._conf_id]
     if got != [0, 0, 1, 1]:
         bad.append(f"two interleaved iterators yielded {got}")
+elif op == "slice":
+    n = src.n_conformers
+    for sl in (slice(None), slice(0, 1), slice(1, None), slice(-1, None), slice(0, 5)):
+        got = [c._conf_id for c in src[sl]]
+        if got != list(range(n))[sl]:
+            bad.append(f"ens[{sl}] on {n} conformers x {src.n_atoms} atoms gave conformers {got}")
 elif op == "init":
     for e in (ml.ConformerEnsemble(list(src)[:2]), ml.ConformerEnsemble(src), ml.ConformerEnsemble(src[0]), ml.ConformerEnsemble(src[0], n_conformers=3)):
         bad += rect(e)
